@@ -121,21 +121,27 @@ claim("C11", "Lean 4 theorems about definitions regenerated from the source (py2
       "are KNOWN FINDINGS listed in known_findings.json; float32 underflow of tiny mixture weights is documented; eqx.error_if raising is observed at run time; "
       "the hypotheses w != 0 (planar, weight norm) and knots >= 1 are needed (real code: NaN / ZeroDivisionError there).", "DESIGN.md §5 C11")
 
-claim("C13", "Lean 4 theorems (core Lean, no Mathlib) about a class table and the wrapper's inner checks regenerated from the source AST "
-      "(tools/py2lean/structure.py) and about hand-written executable models of the wrapper / vectoriser / constructor checks, "
-      "+ exhaustive small-lattice correspondence with the real classes, constructors and live class introspection",
+claim("C13", "Lean 4 theorems (core Lean, no Mathlib) about a class table, the wrapper's inner checks (tools/py2lean/structure.py) and the "
+      "constructors / argument checks (tools/py2lean/py2ctor.py: exception-valued statement-level translation) regenerated from the source AST, "
+      "about hand-written executable models of the wrapper / vectoriser / constructor checks, and proofs that the regenerated constructors ARE "
+      "the hand models, + exhaustive small-lattice correspondence with the real classes, constructors and live class introspection",
       "For ALL shapes of all ranks the checking wrapper (regenerated `_check_x` / `_check_condition`) lets a call through iff x has exactly the declared "
       "shape and (the bijection is unconditional — the body then receives condition=None — or the condition has exactly cond_shape), otherwise it raises "
       "ValueError/TypeError; for every class of the regenerated class table and each of the four methods the attribute Python resolves through the MRO is "
       "one the __init_subclass__ hook wrapped (decide over the table: no alias, decorator, mixin, nested class, foreign setattr); log_prob/sample accept iff "
-      "trailing dimensions match exactly; Chain/Concatenate/Stack/Reshape/Transformed/TriangularAffine/Coupling/MAF/BNAF constructors accept iff the documented "
-      "compatibility holds, Concatenate/Stack declare exactly the jnp.concatenate/jnp.stack shape for every valid (also negative) axis; Partial for slices and "
-      "in-range integer indices. Correspondence: every concrete bijection class x four methods x wrong-shape lattice x condition variants (exception class and "
-      "result shapes), constructors on shape grids, live __mro__/__dict__/__wrapped__ of every subclass, distributions.",
-      _TB + " Known finding kept faithful in the model: Partial accepts an out-of-range integer index (theorem partial_oob_int_accepted; "
-      "partial_ctor_rejects_iff_partial excludes it). Array/tuple index kinds of Partial and the result shapes of successful calls are covered by the "
-      "correspondence/oracle on the real code, not by theorems. Python's __init_subclass__/MRO/functools.wraps semantics are modelled by the resolver and "
-      "validated against live introspection each run.", "DESIGN.md §5 C13")
+      "trailing dimensions match exactly; the REGENERATED check_shapes_match / merge_cond_shapes / Chain / Concatenate (+ _argcheck_shapes) / Stack / Partial / "
+      "Reshape / EmbedCondition / Vmap / AbstractTransformed constructors and checks raise the same exception or declare the same shape / cond_shape as the "
+      "specification-level models for every list of children, every axis (negative included) and every modelled index, hence accept iff the documented "
+      "compatibility holds; Concatenate/Stack declare exactly the jnp.concatenate/jnp.stack shape for every valid (also negative) axis; Partial for slices and "
+      "in-range integer indices; TriangularAffine/Coupling/MAF/BNAF tests as hand models. Correspondence: every concrete bijection class x four methods x "
+      "wrong-shape lattice x condition variants (exception class and result shapes), constructors on shape grids through hand model, regenerated definition "
+      "and real constructor, live __mro__/__dict__/__wrapped__ of every subclass, distributions.",
+      _TB + " Known finding kept faithful in the model: Partial accepts an out-of-range integer index (theorems partial_oob_int_accepted / "
+      "gen_partial_oob_int_accepted; the …_rejects_iff_partial theorems exclude it). Trusted + compared: the typing sheet targets_ctors.py (children are "
+      "records of declared shape / cond_shape, unwrap keeps them, Equinox runs __check_init__ after __init__) and the primitives of Model/CtorPrims.lean "
+      "(range(n)[i], slices, math.prod, JAX static indexing for int / slice indices, Vmap's pytree traversal resolved by the harness). Array/tuple index "
+      "kinds of Partial and the result shapes of successful calls are covered by the correspondence/oracle on the real code, not by theorems. Python's "
+      "__init_subclass__/MRO/functools.wraps semantics are modelled by the resolver and validated against live introspection each run.", "DESIGN.md §5 C13")
 
 claim("C05", "Lean 4 theorems about definitions regenerated from the source (py2lean) + Float correspondence + exact-rational / scipy oracle",
       "For every valid parameter (scale>0, rate>0, df>0, minval<maxval) and every point of the support, the one-element log-prob of Normal, LogNormal, Uniform "
